@@ -357,6 +357,10 @@ Definition users (c0 : string) (r : inforce) : bool :=
 Definition stranded (c0 : string) (r : inforce) (f : fs) : bool :=
   empty_inforce r && nonempty O c0 && (on_disk c0 f || on_disk (conv O c0) f).
 
+(* layout: an empty rule set in force while the user's (non-empty) rules file r0 is on disk *)
+Definition layout_stranded (r0 : string) (r : inforce) (f : fs) : bool :=
+  nonempty_new O r0 && empty_inforce r && on_disk r0 f.
+
 Definition inforce_eqb (a b : inforce) : bool :=
   match a, b with
   | IErr, IErr | INone, INone => true
